@@ -831,6 +831,31 @@ class World:
 _MISSING = object()
 
 
+def canonical(history):
+	"""The history with every maximal run of consecutive datagram transmissions of one virtual
+	instant stably sorted by sending socket.  In which order one tick serves *different*
+	sockets (e.g. the clock indication to several links, which an implementation may keep in a
+	set ordered by object address) is no observable of any property and must not make the
+	digest — and with it the determinism self-check — depend on memory layout; the order of the
+	datagrams of one socket is kept."""
+	out = []
+	run = []
+	for ev in history:
+		if ev[1] == "tx" and (not run or run[-1][0] == ev[0]):
+			run.append(ev)
+			continue
+		if run:
+			out.extend(sorted(run, key=lambda e: e[2]["sport"] or 0))
+			run = []
+		if ev[1] == "tx":
+			run.append(ev)
+		else:
+			out.append(ev)
+	if run:
+		out.extend(sorted(run, key=lambda e: e[2]["sport"] or 0))
+	return out
+
+
 class UmEngine:
 	name = "um"
 
@@ -999,7 +1024,7 @@ class UmEngine:
 			res.probes["race-" + k] = v
 		res.probes["ticks"] = w.ticks
 		res.probes["lock-contention"] = sim.lock_contention
-		res.digest = digest_of([sim.history, sim.switch_sig])
+		res.digest = digest_of([canonical(sim.history), sim.switch_sig])
 		res.choices = {"picks": pol.picks_out, "preempt_at": [list(k) for k in pol.preempted_out]}
 		res.signature = digest_of([sim.switch_sig, stats])
 		res.nontrivial = stats["bursts"] > 0 and len(pol.preempted_out) > 0
@@ -1078,7 +1103,7 @@ class UmEngine:
 			res.probes.update(w.trxcon.stats)
 			res.probes["trxcon-session"] = 1
 		res.probes["ticks"] = w.ticks
-		res.digest = digest_of(sim.history)
+		res.digest = digest_of(canonical(sim.history))
 		res.choices = {"picks": pol.picks_out, "preempt_at": pol.preempted_out}
 		res.signature = digest_of(mon.trace[:400])
 		res.nontrivial = mon.discharged > 0 and w.ticks > 0
